@@ -1,7 +1,10 @@
----- MODULE J_C17 ----
-EXTENDS TileRule, Json, IOUtils, TLC
-(* C17: delivered frames, discarded-bytes reports and rejected frames tile the input. *)
-Mon(r) == Tile(r.e, 1, 0, r.T)
+---- MODULE J_C18 ----
+EXTENDS ArrayBuf, Json, IOUtils, TLC
+(* C18: the observations of the real ArrayBuf<N> (n = -1: Vec through the same Buffer trait, unbounded) equal those
+   of the ideal bounded vector for the recorded operation sequence; Debug and == depend on the visible contents only. *)
+CapOf(n) == IF n < 0 THEN 1073741824 ELSE n
+Mon(r) == /\ r.obs = IdealObs(<<>>, CapOf(r.n), r.ops, 1, <<>>)
+          /\ r.dbg = 1 /\ r.eq = <<1, 0>>
 
 \* ---- batch judge loop (generated boilerplate, see bin/vf) ---------------
 Recs == ndJsonDeserialize(IOEnv.VF_TRACE)
